@@ -22,12 +22,15 @@ def mc_configs(ctx):
     if ctx.quick():
         return [("one-open-no-auto", nu.mc_consts(mo=1, mcl=0, cut=0)),
                 ("one-open-autoXY-cut", nu.mc_consts(auto=("X", "Y"), mo=1, mcl=0, cut=1, rec=0)),
-                ("one-open-autoX-openfail", nu.mc_consts(auto=("X",), mo=1, mcl=0, fail=1))]
+                ("one-open-autoX-openfail", nu.mc_consts(auto=("X",), mo=1, mcl=0, fail=1)),
+                ("pending-validation-2cuts-2reconnects", nu.mc_consts(mo=1, moy=0, mcl=0, cut=2, rec=2))]
     return [("open-close", nu.mc_consts(mo=1, mcl=1)),
             ("cut-reconnect", nu.mc_consts(mo=1, mcl=0, cut=1, rec=1, sub=4)),
             ("open-fail-autoXY", nu.mc_consts(auto=("X", "Y"), mo=1, mcl=0, fail=1)),
             ("autoXY-cut", nu.mc_consts(auto=("X", "Y"), mo=1, mcl=0, cut=1)),
-            ("autoX-openfail", nu.mc_consts(auto=("X",), mo=1, mcl=0, fail=1))]
+            ("autoX-openfail", nu.mc_consts(auto=("X",), mo=1, mcl=0, fail=1)),
+            ("pending-validation-2cuts-2reconnects", nu.mc_consts(mo=1, moy=0, mcl=0, cut=2, rec=2)),
+            ("two-opens-2cuts-2reconnects", nu.mc_consts(mo=2, moy=0, mcl=0, cut=2, rec=2))]
 
 
 def model_check(ctx):
@@ -48,6 +51,7 @@ def model_negative(ctx):
     res = []
     for name, inv, consts in [("no-known-tags", "NoUnknownPanic", nu.mc_consts(mo=1, mcl=1, tags=())),
                               ("silent-negotiation-error", "QuiesceOK", nu.mc_consts(mo=1, mcl=0, mut="silent_negotiation_error")),
+                              ("vp-keeps-connection-state", "NoUnknownPanic", nu.mc_consts(mo=1, moy=0, mcl=0, cut=2, rec=2, mut="vp_keeps_conn_state")),
                               ("silent-task-end", "QuiesceOK", nu.mc_consts(auto=("X", "Y"), mo=1, mcl=0, cut=1, mut="silent_task_end"))]:
         r = tlc_mc(ctx, "NotifMC.tla", write_cfg(ctx, "neg_%s.cfg" % name, consts, ["SPECIFICATION Spec", "INVARIANTS MonOK NoUnknownPanic QuiesceOK", "CHECK_DEADLOCK FALSE"]),
                    workers=6, timeout=1200, expect_violation=True)
@@ -58,7 +62,8 @@ def model_negative(ctx):
 
 def generate(ctx):
     gl = ["SPECIFICATION Spec", "ACTION_CONSTRAINT Emit", "CHECK_DEADLOCK FALSE"]
-    sets = [("gen-noauto", nu.mc_consts(mo=1, mcl=0)), ("gen-autoX", nu.mc_consts(auto=("X",), mo=1, mcl=0, cut=0))]
+    sets = [("gen-noauto", nu.mc_consts(mo=1, mcl=0)), ("gen-autoX", nu.mc_consts(auto=("X",), mo=1, mcl=0, cut=0)),
+            ("gen-rec2", nu.mc_consts(mo=1, moy=0, mcl=0, cut=2, rec=2))]
     if not ctx.quick():
         sets += [("gen-cut", nu.mc_consts(auto=("Y",), mo=1, mcl=0, cut=1))]
     scripts, stats = [], []
